@@ -191,6 +191,12 @@ def run(R):
             e = ('and', e, ('bad', rng.choice(B.BAD_FRAGMENTS)))
         O = rng.choice(perms3) if rng.random() < 0.8 else [0, 1]
         hs.append(error_history(O, e))
+    # a non-Boolean operator directly UNDER a negation (~-a, not +a, ~~-a, not(a + b) ...): a double-negation shortcut may not skip it
+    for frag in ('-a', '+a', '-1', '+0', 'a + b', 'a < b', '-(a & b)', 'a - b'):
+        for kw1 in (False, True):
+            inner = ('not', ('bad', B.rn(frag)), kw1)
+            for e in (inner, ('not', inner, False), ('not', inner, True), ('and', ('v', 1), inner), ('orl', (inner, ('v', 0)))):
+                hs.append(error_history([0, 1, 2], e))
     for t in B.BAD_TEXTS:
         for O in ([0, 1, 2], [2, 0], []):
             hs.append(error_history(O, ('bad', t), text=t))
